@@ -334,6 +334,56 @@ T7 = {
         "C20 protocol: long-target inputs (12-5000 characters, complete / truncated / without version) and a CPU-time budget oracle "
         "(process CPU time, interrupting the computation): data_received computing for seconds blocks the worker's event loop", ["C20"]),
 }
+T8 = {
+    "C01-r8-amqp-connect-again-forgets-tags": (
+        "RabbitMQ: connect() called a second time on a connected broker while a message is held (second Connection / app over the broker object)", False,
+        "C01 histories: `reconnect` op (idempotent connect on a connected broker)", ["C01"]),
+    "C02-r8-message-dependency-instance-reused-after-eager": (
+        "eager response on one delivery, the same message redelivered in the same process, another eager call on the redelivery", True, None, ["C02"]),
+    "C03-r8-eager-response-leaves-reporting-entry": (
+        "eager response, the same id delivered again in the same run, stop signal while that later execution outlasts the graceful period", False,
+        "C03 pool: eager (retry / reject / reschedule) first delivery followed by a 15 s second delivery, graceful 0 / 0.5 s", ["C03"]),
+    "C04-r8-eager-retry-policy-number-off-by-one": ("eager retry() / force_retry() without next_retry, second or later retry, non-flat policy", True, None, ["C04"]),
+    "C05-r8-wait-until-prefers-period-grid": (
+        "in-memory / RabbitMQ: a message that carries both a period and a retry time (retried iteration of a recurring job)", False,
+        "C05 form `netby`: defer_by + next_execution_time, period 1 s or 1 h", ["C05"]),
+    "C06-r8-redis-reject-delayed-score-capped-at-now": (
+        "Redis: the pending iteration is taken through the DELAYED category before it is due and handed back", False,
+        "scenario interpreter: `inspect` (a consumer of the DELAYED category takes waiting messages, holds them, rejects or abandons "
+        "them) - used by C06 and C09", ["C06"]),
+    "C07-r8-get-payload-swallows-bucket-error": (
+        "arguments in a bucket and the worker's look-up of the bucket failing once", False,
+        "C07 e2e: the worker's first get_bucket raises; the actor is never called with anything but the job's arguments", ["C07"]),
+    "C08-r8-pydantic-validate-default": ("PydanticConverter, declared default that does not satisfy the annotation, payload omitting it", False,
+                                         "C08 signatures: defaults None / () / '' / 0 under any annotation", ["C08"]),
+    "C09-r8-mem-next-due-cache-misses-put-back": (
+        "in-memory: a delayed message taken through the DELAYED category, held across its due time, handed back", False,
+        "C09: deferred jobs + `inspect` holding one across its due time; allowance for deferred jobs = pickup + promotion latency", ["C09"]),
+    "C10-r8-hand-back-releases-unheld-slot": ("two queues with backlog, tasks_limit < messages_limit, M-th actor outlasting the graceful period", True, None, ["C10"]),
+    "C11-r8-amqp-bounce-counter-dead-letters-foreign": ("RabbitMQ: a foreign-topic message bounced 30 times (>= 3.1 s) by a worker that does not serve it", True, None, ["C11"]),
+    "C12-r8-mem-ttl-guard-under-topic-filter": ("in-memory NORMAL consumer without a topic filter, expired message", True, None, ["C12"]),
+    "C13-r8-job-result-cached-on-object": (
+        "Job.result read twice on one Job object with a later execution in between (recurring job, eager set_result + retry)", False,
+        "scenario `read_results_early`: Job.result is read on the enqueued Job object after every execution", ["C13"]),
+    "C14-r8-amqp-finish-cumulative-nack": (
+        "RabbitMQ: two consumers on one broker object (one channel), the one being finished has >= 2 unsettled messages, the other holds an "
+        "earlier delivery", False,
+        "the RabbitMQ model implements `multiple` settlements (it raised NotImplementedError: the run ended as a harness error, not a verdict)", ["C14"]),
+    "C15-r8-mem-put-back-parks-due-in-delayed": (
+        "in-memory: a rejected message that carries an already-due schedule (retried / recurring), another enqueue before the next consume", False,
+        "C15 mode `returned-due`", ["C15"]),
+    "C16-r8-message-parameters-assigned-before-requeue": (
+        "the broker's requeue failing once, then another retry-type action on the same handle", False,
+        "C16 handles: one-shot broker faults; a failed action leaves the handle usable with its retry state unchanged", ["C16"]),
+    "C17-r8-subscriber-dedup-by-func": ("two instances of one middleware class on a connection", False,
+                                        "C17: a middleware class instantiated a second time (`twin_of`)", ["C17"]),
+    "C18-r8-override-cycle-check-false-positive": (
+        "override() with a provider below which a Depends object is reachable along two paths", False,
+        "C18: an override of a supported, acyclic provider that raises is a violation (it ended as a harness error)", ["C18"]),
+    "C19-r8-overdue-counts-from-delay-until": ("a message with a ttl and a delay_until later than its timestamp", False,
+                                               "C19 overdue: delay_until / defer_by / next_execution_time / retry state on Parameters and Job", ["C19"]),
+    "C20-r8-endpoint-strip-trailing-slash": ("endpoint setting ending with a slash (or starting with several)", True, None, ["C20"]),
+}
 RETIRED = {"C10-r4-stop-event-at-mth-start", "C03-r6-health-stop-before-graceful-finish"}
 
 
@@ -345,6 +395,7 @@ def main() -> None:
     rows += [(n, 5, needs, first, st, checks) for n, (needs, first, st, checks) in T5.items()]
     rows += [(n, 6, needs, first, st, checks) for n, (needs, first, st, checks) in T6.items()]
     rows += [(n, 7, needs, first, st, checks) for n, (needs, first, st, checks) in T7.items()]
+    rows += [(n, 8, needs, first, st, checks) for n, (needs, first, st, checks) in T8.items()]
     for name, rnd, needs, first, strengthened, checks in rows:
         d = ROOT / "seeded" / name
         pid = name[:3]
